@@ -12,8 +12,8 @@
       [prim_step]   ber_decode_primitive (asn_codecs_prim.c): nothing is consumed
                     until the whole TLV is present;
       [chain_step]  ber_check_tags (ber_decoder.c) called with a restart context:
-                    ctx->step is saved on every return, limit_len and
-                    expect_00_terminators are locals and are NOT saved. *)
+                    ctx->step, limit_len and expect_00_terminators are saved
+                    on every return that is not RC_OK and restored on entry. *)
 From Coq Require Import ZArith List Bool.
 From A1 Require Import Base.Bytes Leaf.IntegerConv Leaf.BerTL Rt.Types Rt.Comb Rt.Der.
 Import ListNotations.
@@ -348,14 +348,19 @@ Definition prim_step (tg : Z) (c : prim_ctx) (w : list Z) : code * nat * prim_ct
       end
   end.
 
-(* 4b. ber_check_tags with a restart context (constructed types).
+(* 4b. ber_check_tags with a restart context, as the constructed decoders call it
+       (SEQUENCE, SET, SET OF, CHOICE: last_length = &ctx->left).
        tags: td->tags (tag_mode = 0, every tag is checked; all but the last must
        be constructed, the last must be constructed too: last_tag_form = 1).
-       Context: ctx->step = number of tags already passed, and — once RC_OK —
-       the value stored in *last_length (ctx->left of the caller).
-       Locals lost on a restart: limit_len, expect_00_terminators. *)
+       Context: ctx->step = number of tags already passed; ctx->left and
+       ctx->context.  On RC_OK ctx->left holds *last_length and ctx->context is 0;
+       on every other return the locals limit_len and expect_00_terminators are
+       saved there, and a call entered with step > 0 restores them (and cuts the
+       window to limit_len, as the loop does).
+       Contexts with cstep >= length tags are never produced for a caller that
+       leaves its tag phase on RC_OK; the model answers OK on them. *)
 
-Record chain_ctx := { cstep : nat; cleft : option Z }.
+Record chain_ctx := { cstep : nat; cleft : Z; cctx : Z }.
 
 (* one iteration of the for loop; returns the new locals or a verdict *)
 Inductive iter_res :=
@@ -392,25 +397,32 @@ Definition chain_iter (tag : Z) (w : list Z) (limit exp00 : Z) : iter_res :=
       end
   end.
 
-(* the loop from tag number [skip] on; [w] is the rest of the window, already
-   cut to limit_len when that is known (size = limit_len) *)
+(* if(limit_len >= 0 && (ssize_t)size > limit_len) size = limit_len; *)
+Definition trunc (limit : Z) (w : list Z) : list Z :=
+  if (0 <=? limit) && (limit <? zlen w) then firstn (Z.to_nat limit) w else w.
+
+(* the loop over the remaining tags; [w] is the rest of the window, already
+   cut to limit_len when that is known *)
 Fixpoint chain_loop (tags : list Z) (w : list Z) (limit exp00 lastlen : Z) (step consumed : nat)
   : code * nat * chain_ctx :=
   match tags with
-  | [] => (OK, consumed, {| cstep := step; cleft := Some (if exp00 =? 0 then lastlen else - exp00) |})
+  | [] => (OK, consumed, {| cstep := step; cleft := (if exp00 =? 0 then lastlen else - exp00); cctx := 0 |})
   | tag :: tags' =>
       match chain_iter tag w limit exp00 with
-      | IMore => (MORE, consumed, {| cstep := step; cleft := None |})
-      | IFail => (FAIL, consumed, {| cstep := step; cleft := None |})
+      | IMore => (MORE, consumed, {| cstep := step; cleft := limit; cctx := exp00 |})
+      | IFail => (FAIL, consumed, {| cstep := step; cleft := limit; cctx := exp00 |})
       | INext limit' exp00' len adv =>
-          let w1 := skipn adv w in
-          let w2 := if (0 <=? limit') && (limit' <? zlen w1) then firstn (Z.to_nat limit') w1 else w1 in
-          chain_loop tags' w2 limit' exp00' len (S step) (consumed + adv)%nat
+          chain_loop tags' (trunc limit' (skipn adv w)) limit' exp00' len (S step) (consumed + adv)%nat
       end
   end.
 
 Definition chain_step (tags : list Z) (c : chain_ctx) (w : list Z) : code * nat * chain_ctx :=
-  (* int step = opt_ctx->step; limit_len = -1; expect_00_terminators = 0; tagno = step *)
-  chain_loop (skipn (cstep c) tags) w (-1) 0 0 (cstep c) O.
+  match cstep c with
+  | O =>       (* limit_len = -1; expect_00_terminators = 0 *)
+      chain_loop tags w (-1) 0 0 O O
+  | S _ =>     (* restarted inside the chain: the saved locals *)
+      chain_loop (skipn (cstep c) tags) (trunc (cleft c) w) (cleft c) (cctx c) 0 (cstep c) O
+  end.
 
-Definition chain_ctx0 : chain_ctx := {| cstep := O; cleft := None |}.
+(* a structure fresh from calloc *)
+Definition chain_ctx0 : chain_ctx := {| cstep := O; cleft := 0; cctx := 0 |}.
